@@ -231,9 +231,24 @@ pub fn run(args: &Args) -> i32 {
     });
 
     // 3. length classes 0..=15, 16, 17..=35, odd/even around 36.. with valid-looking content
-    rep.run("length-classes", 1500 * 4, 20, true, "every length 0..1500 x {valid 64+-sample packet truncated/extended to that length with footer re-derived for that length, raw truncation, zeros, 0xFF}", |idx, loc| {
-        let len = (idx / 4) as usize;
-        let b: Vec<u8> = match idx % 4 {
+    rep.run("length-classes", 1500 * 6, 20, true, "every length 0..1500 x {valid 64+-sample packet truncated/extended to that length with footer re-derived for that length, raw truncation, zeros, 0xFF, the data-less form's 12 header bytes + zeros + its 4-byte footer as the last word, the data-less form extended by repeating its footer word}", |idx, loc| {
+        let len = (idx / 6) as usize;
+        let b: Vec<u8> = match idx % 6 {
+            4 => {
+                // header of the 16-byte form, zero filler, and a fully-suppressed footer as the last four bytes
+                let s = short_packet(0x2000, 0, 699);
+                let mut v = s[..12.min(len)].to_vec();
+                v.resize(len.saturating_sub(4).max(v.len()), 0);
+                if len >= 16 {
+                    v.extend(&s[12..16]);
+                }
+                v.resize(len, 0);
+                v
+            }
+            5 => {
+                let s = short_packet(0x2000, -1, 699);
+                (0..len).map(|i| if i < 16 { s[i] } else { s[12 + (i % 4)] }).collect()
+            }
             0 => {
                 // packet with exactly the samples that fit (if any), consistent flags
                 if len >= 36 && (len - 36) % 2 == 0 {
